@@ -71,7 +71,9 @@ func (r *Row) Add(c Cell) *Row {
 		// the row is already part of a table: keep the table's column count in step
 		r.inTable.resizeColumnsAtLeast(column)
 	}
-	invokePropertyCallbacks(r.rowCellCallbacks, CB_AT_ADD, ptr, r.ErrorContainer)
+	// errors go to the row itself: it creates its container on demand, and once
+	// the row is in a table that is the table's container
+	invokePropertyCallbacks(r.rowCellCallbacks, CB_AT_ADD, ptr, r)
 	return r
 }
 
